@@ -343,6 +343,14 @@ Qed.
 
 
 
+(* the creation stages (Model.stage) are invisible to the three relations *)
+Lemma Rl_stage s o f : Rl s o -> Rl (s <| stage := f |>) o.
+Proof. intros [L1 L2 L3 L4]. constructor; auto. Qed.
+Lemma Rg_stage s o f : Rg s o -> Rg (s <| stage := f |>) o.
+Proof. intros [G1 G2]. constructor; auto. Qed.
+Lemma Rk_stage s o g f : Rk s o g -> Rk (s <| stage := f |>) o g.
+Proof. intros [K1 K2 K3 K4]. constructor; auto. Qed.
+
 Section Main.
 Context (cs : amap pconf).
 
@@ -524,7 +532,7 @@ Proof.
     split; [|split].
     + eapply Rl_frame; [exact L|apply frL_eq; reflexivity|exact OL].
     + eapply Rg_insts; [exact G|exact OL|]. intros j. cbn. destruct (get j (insts s)); eauto using pc_ok_refl.
-    + eapply Rk_begin; eauto. congruence.
+    + apply Rk_stage. eapply Rk_begin; eauto. congruence.
   - (* registry *)
     destruct e; try (cbn in Hk; discriminate Hk).
     + (* ENewInst *)
@@ -539,16 +547,16 @@ Proof.
         - eapply Rl_new; eauto.
         - eapply Rg_new; eauto.
         - eapply Rk_new; eauto. }
-      destruct R1 as (L1 & G1 & K1). split; [|split].
-      * eapply Rl_frame; [exact L1|apply frL_refl|exact OL1].
-      * eapply Rg_frame; [exact G1|apply frM_refl|exact OL1].
-      * eapply Rk_frame; [exact K1|apply frM_frM2, frM_refl|exact OL1|reflexivity].
+      destruct R1 as (L1 & G1 & K1). unfold set_stage. split; [|split].
+      * apply Rl_stage. eapply Rl_frame; [exact L1|apply frL_refl|exact OL1].
+      * apply Rg_stage. eapply Rg_frame; [exact G1|apply frM_refl|exact OL1].
+      * apply Rk_stage. eapply Rk_frame; [exact K1|apply frM_frM2, frM_refl|exact OL1|reflexivity].
     + (* ERegAdd *)
       assert (OL : ole (ERegAdd i n) o (obs_step cs o (th, ERegAdd i n))) by (apply obs_step_ole; intros; discriminate).
       split; [|split].
       * eapply Rl_frame; [exact L|eapply step_reg_frL; [exact Hk|intros; discriminate]|exact OL].
       * eapply Rg_insts; [exact G|exact OL|eapply reg_insts_same; [exact Hk|intros; discriminate]].
-      * destruct (reg_regadd _ _ _ _ _ Hk) as (x & Hx & Hn & ->). eapply Rk_regadd; eauto.
+      * destruct (reg_regadd _ _ _ _ _ Hk) as (x & Hx & Hn & ->). unfold set_stage. apply Rk_stage. eapply Rk_regadd; eauto.
     + (* ERegDel *)
       assert (OL : ole (ERegDel i) o (obs_step cs o (th, ERegDel i))) by (apply obs_step_ole; intros; discriminate).
       split; [|split].
